@@ -85,9 +85,13 @@ def r13a(R):
     A = R.A
     ls = A.cls(LIGHTSET, 'LightSet')
     seen_add = seen_rm = False
+    from ..inline import absorbed_helpers
+    units = ('_update_memberships', '_remove_memberships')
+    absorbed = absorbed_helpers(A, list(ls.methods.values()), units)
     for name, m in sorted(ls.methods.items()):
-        if name == '__init__':
+        if name == '__init__' or m in absorbed:
             continue
+        m = A.normalised(m, units)   # an extracted per-light helper is part of it
         eff = container_effects(A, m)
         if not eff:
             continue
